@@ -47,7 +47,7 @@ Zkey  true;
 bkey  'b';
 """
 INC = "// first comment\ngamma  4;\n// comment in include\nnested { fromInc 5; }\nshared  1;\n"      # shares its first comment with f1
-INC2 = "gamma  40;\nshared  2;\nonlyTwo  22;\n"
+INC2 = "// comment in include two\ngamma  40;\nshared  2;\nonlyTwo  22;\nexprTwo  \"$onlyTwo + 1\"; // trailing in two\n"
 F2 = '{"#include": "sub/inc", "j1": 1, "j2": "$gamma", "j3": {"b": "text", "a": [1, 2.5]}}'
 F3 = "fk 1;\n// foam comment\nfsub { v (1 2 3); }\n"
 # a block comment (own lines) whose text contains the line-comment marker, a quoted value, a trailing line comment
